@@ -76,6 +76,26 @@ func runC06(c *Ctx, idx int) {
 			}
 			c.Count("families.module_links_with_weights_of_their_own", 1)
 		}
+		if r.Intn(3) == 0 {
+			// ... and, like any link, a recurrence flag (the feedback connection of a module) or a trait
+			for i := range s.Modules {
+				m := &s.Modules[i]
+				m.InRec, m.OutRec, m.InTr, m.OutTr = make([]bool, len(m.Ins)), make([]bool, len(m.Outs)), make([]int, len(m.Ins)), make([]int, len(m.Outs))
+				for j := range m.Ins {
+					m.InRec[j] = r.Intn(3) == 0
+					if r.Intn(3) == 0 && len(s.Traits) > 0 {
+						m.InTr[j] = s.Traits[r.Intn(len(s.Traits))].Id
+					}
+				}
+				for j := range m.Outs {
+					m.OutRec[j] = r.Intn(2) == 0
+					if r.Intn(3) == 0 && len(s.Traits) > 0 {
+						m.OutTr[j] = s.Traits[r.Intn(len(s.Traits))].Id
+					}
+				}
+			}
+			c.Count("families.module_links_with_recurrence_flags_or_traits", 1)
+		}
 		f = newFamilyFrom(buildFromSnap(s), "file:"+modularGenomeFile+"+variants", o)
 	} else if idx%16 == 5 {
 		// trait ids that are unique but neither consecutive nor ascending (1,3,2 / 4,9,7): duplication resolves traits by id.
